@@ -281,6 +281,10 @@ void mmd_print_localized_char_latex(DString * out, unsigned short type, scratch_
 /// Print a URL as the first argument of \href: hyperref reads \{ and \} there as the
 /// literal characters, whereas a bare brace would end (or extend) the argument
 static void mmd_print_url_latex(DString * out, const char * url) {
+	if (url == NULL) {
+		return;
+	}
+
 	while (*url != '\0') {
 		if (*url == '{' || *url == '}') {
 			print_char('\\');
